@@ -63,3 +63,46 @@ func VerifC30Contents(api *API, indexName, fieldName string) ([][2]string, error
 	}
 	return out, nil
 }
+
+// VerifC30ShardContents returns, per shard, the bits of the standard view of a field that the node
+// `data` holds locally, as (row label, column label) pairs; keys are looked up in the translate store
+// of the node `tr` (the coordinator: replicas receive the key log asynchronously).
+func VerifC30ShardContents(data, tr *API, indexName, fieldName string) (map[uint64][][2]string, error) {
+	index := data.holder.Index(indexName)
+	if index == nil {
+		return nil, ErrIndexNotFound
+	}
+	field := index.Field(fieldName)
+	if field == nil {
+		return nil, ErrFieldNotFound
+	}
+	out := map[uint64][][2]string{}
+	v := field.view(viewStandard)
+	if v == nil {
+		return out, nil
+	}
+	for _, frag := range v.allFragments() {
+		for _, rowID := range frag.rows(0) {
+			rowStr := strconv.FormatUint(rowID, 10)
+			if field.keys() {
+				s, err := tr.holder.translateFile.TranslateRowToString(indexName, fieldName, rowID)
+				if err != nil {
+					return nil, err
+				}
+				rowStr = s
+			}
+			for _, colID := range frag.row(rowID).Columns() {
+				colStr := strconv.FormatUint(colID, 10)
+				if index.Keys() {
+					s, err := tr.holder.translateFile.TranslateColumnToString(indexName, colID)
+					if err != nil {
+						return nil, err
+					}
+					colStr = s
+				}
+				out[frag.shard] = append(out[frag.shard], [2]string{rowStr, colStr})
+			}
+		}
+	}
+	return out, nil
+}
